@@ -721,3 +721,12 @@ func TestD37_PickMissingKey(t *testing.T) {
 		})
 	}
 }
+
+// D38: a nil data-provider factory (a typed-nil internals.DpFactory) given as data was called
+func TestD38_NilFactory(t *testing.T) {
+	type D struct{ Name string }
+	s := z.Struct(z.Schema{"name": z.String()})
+	var f internals.DpFactory
+	noPanic(t, "nil DpFactory into Struct", func() { var d D; s.Parse(f, &d) })
+	noPanic(t, "nil DpFactory into Ptr(Struct)", func() { var d *D; z.Ptr(s).Parse(f, &d) })
+}
